@@ -2468,3 +2468,8 @@ package sftp
 //@   property C01
 //@   requires rs != nil
 //@   ensures rs.maxTxPacket == size && size >= 32768 || rs.maxTxPacket == old(rs.maxTxPacket)
+
+//@ func hasMeta
+//@   property C05
+//@   assert before call strings.ContainsAny#1: arg0 == path && arg1 == "\\*?["
+// (the magic characters of a glob pattern are exactly those of package path: backslash, star, question mark, bracket)
